@@ -494,6 +494,9 @@ func c13RunRound(c c13Round) (msg string) {
 					if st := definite[ci][id]; st != nil {
 						d = fmt.Sprintf("present=%v vector=%v", st.present, st.vec)
 					}
+					if keep := os.Getenv("VERIF_C13_KEEP"); keep != "" { // debugging aid: keep the data directory of the failing round
+						_ = c02CopyDir(data, keep)
+					}
 					return fmt.Sprintf("after Close (invoked while clients were running) and Open: %s reads as (vector %v, err %v); its last write acknowledged before Close was invoked left it as (%s); %d later attempts could explain other states, none explains this one", id, vd.Vector, gerr, d, len(maybe[ci][id]))
 				}
 			}
